@@ -25,25 +25,58 @@ def Cubic.pos (q : Cubic K) (s : K) : Pt K := cubicBezierPos q.1 q.2.1 q.2.2.1 q
 /-- the loop of the QuadToCmd case of SplitAt (path.go:1563-1575): `Canvas.C09.cutsGen` with the
 generated `quadraticBezierSplit` (left part = outputs 1-3, right part = outputs 4-6) -/
 def quadCuts (r : Quad K) (t0 : K) (ts : List K) : List (Quad K) × Quad K :=
-  Canvas.C09.cutsGen (· - ·) (· / ·) 1 (fun (q : Quad K) t => quadL q.1 q.2.1 q.2.2 t)
+  Canvas.C09.cutsGen (fun a b => decide (a < b)) (· - ·) (· / ·) 1 (fun (q : Quad K) t => quadL q.1 q.2.1 q.2.2 t)
     (fun (q : Quad K) t => quadR q.1 q.2.1 q.2.2 t) r t0 ts
 
 /-- the loop of the CubeToCmd case (path.go:1598-1610) -/
 def cubeCuts (r : Cubic K) (t0 : K) (ts : List K) : List (Cubic K) × Cubic K :=
-  Canvas.C09.cutsGen (· - ·) (· / ·) 1 (fun (q : Cubic K) t => cubL q.1 q.2.1 q.2.2.1 q.2.2.2 t)
+  Canvas.C09.cutsGen (fun a b => decide (a < b)) (· - ·) (· / ·) 1 (fun (q : Cubic K) t => cubL q.1 q.2.1 q.2.2.1 q.2.2.2 t)
     (fun (q : Cubic K) t => cubR q.1 q.2.1 q.2.2.1 q.2.2.2 t) r t0 ts
 
-theorem quadCuts_cons (r : Quad K) (t0 t : K) (ts : List K) :
+theorem quadCuts_cons (r : Quad K) (t0 t : K) (ts : List K) (h : t0 < 1) :
     quadCuts r t0 (t :: ts) =
       (quadL r.1 r.2.1 r.2.2 ((t - t0) / (1 - t0)) ::
           (quadCuts (quadR r.1 r.2.1 r.2.2 ((t - t0) / (1 - t0))) t ts).1,
-        (quadCuts (quadR r.1 r.2.1 r.2.2 ((t - t0) / (1 - t0))) t ts).2) := rfl
+        (quadCuts (quadR r.1 r.2.1 r.2.2 ((t - t0) / (1 - t0))) t ts).2) := by
+  simp only [quadCuts, Canvas.C09.cutsGen, decide_eq_true h, if_true]
 
-theorem cubeCuts_cons (r : Cubic K) (t0 t : K) (ts : List K) :
+theorem cubeCuts_cons (r : Cubic K) (t0 t : K) (ts : List K) (h : t0 < 1) :
     cubeCuts r t0 (t :: ts) =
       (cubL r.1 r.2.1 r.2.2.1 r.2.2.2 ((t - t0) / (1 - t0)) ::
           (cubeCuts (cubR r.1 r.2.1 r.2.2.1 r.2.2.2 ((t - t0) / (1 - t0))) t ts).1,
-        (cubeCuts (cubR r.1 r.2.1 r.2.2.1 r.2.2.2 ((t - t0) / (1 - t0))) t ts).2) := rfl
+        (cubeCuts (cubR r.1 r.2.1 r.2.2.1 r.2.2.2 ((t - t0) / (1 - t0))) t ts).2) := by
+  simp only [cubeCuts, Canvas.C09.cutsGen, decide_eq_true h, if_true]
+
+/-- once the previous cut parameter has reached 1 (5884f31) the loop splits at `tsub = 1` -/
+theorem quadCuts_cons_end (r : Quad K) (t0 t : K) (ts : List K) (h : ¬ t0 < 1) :
+    quadCuts r t0 (t :: ts) =
+      (quadL r.1 r.2.1 r.2.2 1 :: (quadCuts (quadR r.1 r.2.1 r.2.2 1) t ts).1,
+        (quadCuts (quadR r.1 r.2.1 r.2.2 1) t ts).2) := by
+  simp only [quadCuts, Canvas.C09.cutsGen, decide_eq_false h, Bool.false_eq_true, if_false]
+
+theorem cubeCuts_cons_end (r : Cubic K) (t0 t : K) (ts : List K) (h : ¬ t0 < 1) :
+    cubeCuts r t0 (t :: ts) =
+      (cubL r.1 r.2.1 r.2.2.1 r.2.2.2 1 :: (cubeCuts (cubR r.1 r.2.1 r.2.2.1 r.2.2.2 1) t ts).1,
+        (cubeCuts (cubR r.1 r.2.1 r.2.2.1 r.2.2.2 1) t ts).2) := by
+  simp only [cubeCuts, Canvas.C09.cutsGen, decide_eq_false h, Bool.false_eq_true, if_false]
+
+/-- splitting at 1: the left part is the whole curve, the right part is its end point -/
+theorem quad_split_at_one (r : Quad K) (s : K) :
+    Quad.pos (quadL r.1 r.2.1 r.2.2 1) s = r.pos s ∧ Quad.pos (quadR r.1 r.2.1 r.2.2 1) s = r.pos 1 := by
+  constructor
+  · have := quad_left r.1 r.2.1 r.2.2 1 s
+    simp only [Quad.pos] at this ⊢; rw [this, one_mul]
+  · have := quad_right r.1 r.2.1 r.2.2 1 s
+    simp only [Quad.pos] at this ⊢; rw [this]; congr 1; ring
+
+theorem cube_split_at_one (r : Cubic K) (s : K) :
+    Cubic.pos (cubL r.1 r.2.1 r.2.2.1 r.2.2.2 1) s = r.pos s ∧
+      Cubic.pos (cubR r.1 r.2.1 r.2.2.1 r.2.2.2 1) s = r.pos 1 := by
+  constructor
+  · have := cub_left r.1 r.2.1 r.2.2.1 r.2.2.2 1 s
+    simp only [Cubic.pos] at this ⊢; rw [this, one_mul]
+  · have := cub_right r.1 r.2.1 r.2.2.1 r.2.2.2 1 s
+    simp only [Cubic.pos] at this ⊢; rw [this]; congr 1; ring
 
 /-- the loop of the LineToCmd case (path.go:1541-1551): every cut is interpolated on the whole segment -/
 def lineCuts (a b : Pt K) (prev : Pt K) : List K → List (Pt K × Pt K) × (Pt K × Pt K)
@@ -53,10 +86,11 @@ def lineCuts (a b : Pt K) (prev : Pt K) : List K → List (Pt K × Pt K) × (Pt 
     let rest := lineCuts a b pos ts
     ((prev, pos) :: rest.1, rest.2)
 
-/-- every division `1 - t0` performed by the loop is by a non-zero number -/
+/-- every cut parameter before the last one is below 1 (the loop then divides by `1 - t0 > 0`; once a
+parameter has reached 1 the loop splits at 1, see `quadCuts_cons_end`) -/
 def okCuts : K → List K → Prop
   | _, [] => True
-  | t0, t :: ts => t0 ≠ 1 ∧ okCuts t ts
+  | t0, t :: ts => t0 < 1 ∧ okCuts t ts
 
 def lastCut : K → List K → K
   | t0, [] => t0
@@ -78,9 +112,9 @@ theorem quadCuts_ok (f : K → Pt K) (ts : List K) : ∀ (t0 : K) (r : Quad K), 
   | cons t ts ih =>
     intro t0 r hok hr
     obtain ⟨h1, hok'⟩ := hok
-    have hne : (1 - t0) ≠ 0 := sub_ne_zero.mpr (Ne.symm h1)
+    have hne : (1 - t0) ≠ 0 := (sub_pos.mpr h1).ne'
     have hk : (1 - t0) * ((t - t0) / (1 - t0)) = t - t0 := by field_simp
-    rw [quadCuts_cons]
+    rw [quadCuts_cons _ _ _ _ h1]
     simp only [piecesOK, lastCut]
     refine ⟨⟨?_, (ih t _ hok' ?_).1⟩, (ih t _ hok' ?_).2⟩
     · intro s
@@ -111,9 +145,9 @@ theorem cubeCuts_ok (f : K → Pt K) (ts : List K) : ∀ (t0 : K) (r : Cubic K),
   | cons t ts ih =>
     intro t0 r hok hr
     obtain ⟨h1, hok'⟩ := hok
-    have hne : (1 - t0) ≠ 0 := sub_ne_zero.mpr (Ne.symm h1)
+    have hne : (1 - t0) ≠ 0 := (sub_pos.mpr h1).ne'
     have hk : (1 - t0) * ((t - t0) / (1 - t0)) = t - t0 := by field_simp
-    rw [cubeCuts_cons]
+    rw [cubeCuts_cons _ _ _ _ h1]
     simp only [piecesOK, lastCut]
     refine ⟨⟨?_, (ih t _ hok' ?_).1⟩, (ih t _ hok' ?_).2⟩
     · intro s
